@@ -10,6 +10,9 @@ from .C16 import factors, signed_factors, terms
 
 
 def run(ctx):
+    from .C12 import inverse_pairs
+
+    inverse_pairs(ctx, rule="R17.5")  # periodicity holds along the model's main axes only if positions are derotated exactly as isometrize documents (shared with C12)
     from .C11 import private_copy
 
     private_copy(ctx, rule="R17.4")  # without a private model copy an in-place anisotropy change is invisible to update(): the mode mesh goes stale
